@@ -9,6 +9,8 @@ HERE = os.path.dirname(os.path.dirname(os.path.abspath(__file__)))
 def run(name):
     d = os.path.join(HERE, 'seeded', name)
     meta = json.load(open(os.path.join(d, 'meta.json')))
+    if meta.get('superseded_by_fix'):
+        return name, {'superseded': meta['superseded_by_fix']}
     want = meta['checks_run_against_it']['caught_by (quick tier, exit 1 with VIOLATION)']
     silent = meta['checks_run_against_it']['silent (property still holds for them)']
     s = tempfile.mkdtemp(prefix='pvm-seedchk-', dir='/tmp')
@@ -36,6 +38,8 @@ def main():
     bad = 0
     with concurrent.futures.ThreadPoolExecutor(5) as ex:
         for name, res in ex.map(run, names):
+            if 'superseded' in res:
+                print(f'SUPERSEDED {name}: the repository fix {res["superseded"]} removed the code this patch changes'); continue
             if 'error' in res:
                 print(f'ERROR   {name}: {res["error"]}'); bad += 1; continue
             ok = all(res['exit'][c] == 1 for c in res['want']) and all(res['exit'][c] == 0 for c in res['silent'])
